@@ -2,7 +2,8 @@
 From Coq Require Import List Bool ZArith Arith Lia.
 From VF Require Import Base.RingOps Base.Mat Base.Tensor Base.K8 Gates.GateSpecs
   Cliff.Tableau Cliff.TableauSem Cliff.TableauCircuit Generated.TableauRules
-  Cliff.TableauProofs Cliff.TableauConjProofs Cliff.TableauTrackProofs Cliff.TableauCircuitProofs.
+  Cliff.TableauProofs Cliff.TableauConjProofs Cliff.TableauTrackProofs Cliff.TableauCircuitProofs
+  Cliff.TableauThen Cliff.TableauThenProofs Cliff.CliffGroup Cliff.CliffGroupProofs.
 Import ListNotations.
 
 (* every regenerated rule table of CliffordTableau (apply_x/y/z/h/cz/cx, _swap, g, _rowsum) is the model's rule *)
@@ -89,6 +90,35 @@ Theorem C13_model_stabilizers_stabilize : forall K (O : Ops K), Laws O -> forall
     pauli_act O row (lg_run O lgs (ket O bits)) i = lg_run O lgs (ket O bits) i.
 Proof. exact @model_stabilizers_stabilize. Qed.
 Print Assumptions C13_model_stabilizers_stabilize.
+
+
+(* what pauli_act means: a string with one non-identity factor acts as that signed Pauli matrix on that axis *)
+Theorem C13_pauli_act_single : forall K (O : Ops K), Laws O -> forall n a x z r (P : list pbit) psi i,
+  a < n -> length P = n -> (forall k, nth k P (false, false) = (false, false)) -> wf n i ->
+  pauli_act O (mkRow (set_nth P a (x, z)) r) psi i = apply O (mat_of O [2] (pms1 O (x, z, r))) [2] [a] psi i.
+Proof. exact @pauli_act_single. Qed.
+Print Assumptions C13_pauli_act_single.
+
+(* D5: the 24 single-qubit Cliffords, exhaustively in the exact field Q(zeta_8): distinct tableaux; each decompose_gate()
+   matrix is unitary and conjugates X, Z to its tableau rows; merged_with = matrix product and the inverse table =
+   inverse, up to a power of zeta_8; named elements equal the named matrices; and the regenerated merged_with /
+   inverse tables are the model's then / inverse *)
+Theorem C13_clifford24_group_ok : group24_check = true.
+Proof. exact clifford24_group_ok. Qed.
+Print Assumptions C13_clifford24_group_ok.
+
+Theorem C13_clifford24_tables_ok : map (map Some) c24_merged = model_merged /\ map Some c24_inv = model_inv.
+Proof. exact (conj c24_merged_ok c24_inv_ok). Qed.
+Print Assumptions C13_clifford24_tables_ok.
+
+(* D4 (partial: n <= 2, exhaustive): then / inverse as coded agree with "substitute rows for generators and multiply" *)
+Theorem C13_tableau_then_ok_partial : then_check 1 = true /\ then_check 2 = true.
+Proof. exact tableau_then_ok_partial. Qed.
+Print Assumptions C13_tableau_then_ok_partial.
+
+Theorem C13_tableau_inverse_ok_partial : inverse_check 1 = true /\ inverse_check 2 = true.
+Proof. exact tableau_inverse_ok_partial. Qed.
+Print Assumptions C13_tableau_inverse_ok_partial.
 
 (* non-vacuity: the laws are inhabited (exact field Q(zeta_8)) and a Bell-pair circuit with an S gate meets every hypothesis *)
 Example C13_hypotheses_satisfiable :
